@@ -178,6 +178,22 @@ class Folder:
                     return v
             if p == "alloc::string::String::new" and not e["args"]:
                 return ("str", "")
+            # a function of the analysed crates whose body is itself a constant expression of its parameters
+            # (e.g. a `const fn new(..) -> Self { Self { .. } }` used to build a constant table)
+            target = (f.get("resolved") or {}).get("path") or p
+            b = self.lookup(target)
+            if b is not None and self.depth < 12:
+                params = [q.get("pat") for q in b.get("params", [])]
+                if len(params) == len(e["args"]) and all(q and q.get("k") == "bind" for q in params):
+                    vals = [self.fold(x) for x in e["args"]]
+                    saved = self.env
+                    self.env = {q["name"]: v for q, v in zip(params, vals)}
+                    self.depth += 1
+                    try:
+                        return self.fold(b["value"])
+                    finally:
+                        self.depth -= 1
+                        self.env = saved
             raise Unfoldable("call to " + p, sp)
         raise Unfoldable("expression kind " + k, sp)
 
